@@ -1,0 +1,109 @@
+//go:build verif
+
+package layout
+
+import (
+	"github.com/benoitkugler/webrender/css/counters"
+	pr "github.com/benoitkugler/webrender/css/properties"
+	bo "github.com/benoitkugler/webrender/html/boxes"
+	"github.com/benoitkugler/webrender/html/tree"
+	"github.com/benoitkugler/webrender/text"
+)
+
+// VerifC13AutoTable is what the auto table layout reads and writes for one table
+// (read-only observation for the C13 check).
+type VerifC13AutoTable struct {
+	Fixed bool // the fixed algorithm was used: nothing below but Width/ColumnWidths is filled
+
+	// inputs of autoTableLayout
+	WidthAuto bool     // table.Width is auto after resolving percentages
+	WidthIn   pr.Float // table.Width otherwise
+	Available pr.Float // cbWidth - margins - paddings - borders
+
+	// tableAndColumnsPreferredWidths(context, wrapper, false)
+	TableMin, TableMax, Spacing pr.Float
+	ColMin, ColMax, ColPct      []pr.Float
+	Constrained                 []bool
+	HasCell                     []bool // the column has an originating cell
+	HasMaxContent               []bool // ... one of them with a non-zero max-content width
+
+	// outputs
+	Width        pr.Float
+	ColumnWidths []pr.Float
+}
+
+func verifC13FindWrapper(b Box) Box {
+	if b.Box().IsTableWrapper {
+		return b
+	}
+	for _, c := range b.Box().Children {
+		if w := verifC13FindWrapper(c); w != nil {
+			return w
+		}
+	}
+	return nil
+}
+
+// VerifC13Auto builds the formatting structure of the document, takes its first table wrapper and
+// runs tableWrapperWidth on it against a containing block of the given size, exactly as
+// blockBoxLayout does. It returns nil if there is no table.
+func VerifC13Auto(html *tree.HTML, fontConfig text.FontConfiguration, cbWidth pr.Float, cbHeight pr.MaybeFloat) *VerifC13AutoTable {
+	counterStyle := make(counters.CounterStyle)
+	context := newLayoutContext(html, nil, false, fontConfig, counterStyle)
+	rootBox := bo.BuildFormattingStructure(html.Root, context.styleFor, context.resolver,
+		html.BaseUrl, &context.TargetCollector, counterStyle, &context.footnotes)
+	wrapper_ := verifC13FindWrapper(rootBox)
+	if wrapper_ == nil {
+		return nil
+	}
+	cb := bo.MaybePoint{cbWidth, cbHeight}
+	resolvePercentages(wrapper_, cb, 0) // blockLevelLayout
+	wrapper := wrapper_.Box()
+	table := wrapper.GetWrappedTable().Table()
+
+	out := &VerifC13AutoTable{}
+	// what tableWrapperWidth does, with the observation in between
+	resolvePercentages(wrapper.GetWrappedTable(), cb, 0)
+	if table.Style.GetTableLayout() == "fixed" && table.Width != pr.AutoF {
+		out.Fixed = true
+		fixedTableLayout(wrapper)
+	} else {
+		if table.Width == pr.AutoF {
+			out.WidthAuto = true
+		} else {
+			out.WidthIn = table.Width.V()
+		}
+		var margins pr.Float
+		if wrapper.MarginLeft != pr.AutoF {
+			margins += wrapper.MarginLeft.V()
+		}
+		if wrapper.MarginRight != pr.AutoF {
+			margins += wrapper.MarginRight.V()
+		}
+		out.Available = cbWidth - margins - (table.PaddingLeft.V() + table.PaddingRight.V()) -
+			(table.BorderLeftWidth.V() + table.BorderRightWidth.V())
+		tmp := tableAndColumnsPreferredWidths(context, wrapper_, false)
+		out.TableMin, out.TableMax, out.Spacing = tmp.tableMinContentWidth, tmp.tableMaxContentWidth, tmp.totalHorizontalBorderSpacing
+		out.ColMin = append([]pr.Float{}, tmp.columnMinContentWidths...)
+		out.ColMax = append([]pr.Float{}, tmp.columnMaxContentWidths...)
+		out.ColPct = append([]pr.Float{}, tmp.columnIntrinsicPercentages...)
+		out.Constrained = append([]bool{}, tmp.constrainedness...)
+		for _, column := range tmp.grid {
+			hasCell, hasMax := false, false
+			for _, cell := range column {
+				if cell != nil {
+					hasCell = true
+					if maxContentWidth(context, cell, true) != 0 {
+						hasMax = true
+					}
+				}
+			}
+			out.HasCell = append(out.HasCell, hasCell)
+			out.HasMaxContent = append(out.HasMaxContent, hasMax)
+		}
+		autoTableLayout(context, wrapper_, cb.V())
+	}
+	out.Width = table.Width.V()
+	out.ColumnWidths = append([]pr.Float{}, table.ColumnWidths...)
+	return out
+}
